@@ -1,7 +1,8 @@
 /-
   C04 — the inferred schema accepts every encoded value.  Property theorems only
   (helper lemmas: JSV/Proofs/InfStore.lean, InfStruct.lean, InfEqns.lean, InfModels.lean, InfValid.lean,
-  InfSound.lean; the model of encoding/json on the fragment is JSV/Spec/EncJson.lean).
+  InfSound.lean, InfNamed.lean, InfTable.lean, InfEmb*.lean; the model of encoding/json on the fragment is
+  JSV/Spec/EncJson.lean).
 
   Vocabulary:
   * `EncJson.GoValue`, `EncJson.HasType T v`, `EncJson.encode T v` : values of the fragment and json.Marshal;
@@ -11,6 +12,8 @@
   * `EncJson.InDomainN T` : the same with declared (named) types, which encoding/json treats like their underlying
     types (`EncJson.erase`); `EncJson.NamedOk opts strs [] T` : `forType` does so too (no type-table entry, no name
     twice along a path) — or the type is one of the marshaler types `strs` of the type table (`infer_sound_named`);
+    `EncJson.EntriesAccept opts st false T` (JSV/Proofs/InfTable.lean): every entry of the type table that `forType`
+    meets in `T` accepts the encodings of its type (`infer_sound_table_partial`);
   * `Spec.specEnvNoRefs st re` : the Spec environment over the store, draft 2020-12, no references, any
     regexp matcher;
   * `EncJson.depth T` : the nesting depth of the schema, the fuel the Spec needs.
